@@ -23,6 +23,6 @@ for line in open(os.path.join(VERIF, 'seeded', 'RESULTS.txt')):
     else:
         d.setdefault('verified', 'tools/seedverify.sh: patch applies to /repo HEAD, 89 tests pass with it, demo exits 1 with it and 0 '
                                  'without it (fresh scratch worktree)')
-    d['check_result'] = {'command': 'tools/seedcheck.sh %s %s' % (name, name.split('-')[0]), 'exit': rc, 'first_violation': first}
+    d['check_result'] = {'command': 'tools/seedscratch.sh %s %s' % (name, name.split('-')[0]), 'exit': rc, 'first_violation': first}
     json.dump(d, open(p, 'w'), indent=1)
 print('ok')
